@@ -296,6 +296,8 @@ pub fn run(args: &[String], out: &mut Sink) {
     let focus = arg(args, "--focus").unwrap_or("general".into());
     let nops: usize = arg(args, "--nops").and_then(|s| s.parse().ok()).unwrap_or(8);
     let image_driver: Option<String> = arg(args, "--image-driver");
+    // C03: the Lean WAL reader + redo on every crashed directory that holds a WAL (harness/src/wal.rs)
+    let wal_driver: Option<String> = arg(args, "--wal-driver");
     let steps_per_case: usize = arg(args, "--steps").and_then(|s| s.parse().ok()).unwrap_or(2);
     let stride: u64 = arg(args, "--stride").and_then(|s| s.parse().ok()).unwrap_or(1);
     let mode = arg(args, "--mode").unwrap_or("crash".into()); // crash | power | fault | nested
@@ -456,6 +458,9 @@ pub fn run(args: &[String], out: &mut Sink) {
                     }
                     if mode == "fault" {
                         check_fault(out, &child_rep, &desc, info, k);
+                    }
+                    if let Some(driver) = &wal_driver {
+                        crate::wal::monitor_crash_image(out, driver, &d, &desc);
                     }
                     // ---- reopen (optionally crashing during recovery: nested) ----
                     let rep_file = format!("{d}.report");
